@@ -134,6 +134,13 @@ def projectOk {α : Type} [DecidableEq α] (taskClips : List α) : List α → B
   | [] => true
   | c :: cs => if c ∈ toSet taskClips then projectOk taskClips cs else false
 
+/-- the same decision with the set of task clips computed once, as the code does (`clip_ids = {…}` before the
+    loop); `projectOk` recomputes it per annotated clip, which is cubic on long lists.  The driver evaluates this
+    one; `C04_project_fast` proves them equal. -/
+def projectOkFast {α : Type} [DecidableEq α] (taskClips annClips : List α) : Bool :=
+  let clipIds := toSet taskClips
+  annClips.all (fun c => decide (c ∈ clipIds))
+
 /-! ### clips -/
 
 /-- `Clip._validate_times`: raise when `start_time > end_time` -/
